@@ -25,10 +25,14 @@ var (
 	appA  = wm.ML("app", "a")
 )
 
-var Subjects = []wm.APeer{{Namespaces: all}, {Namespaces: teamA}, {PodsNS: all, PodsPod: appA}}
+var Subjects = []wm.APeer{{Namespaces: all}, {Namespaces: teamA}, {PodsNS: all, PodsPod: appA},
+	{Namespaces: &wm.Sel{ML: map[string]string{"team": "a"}, ME: []wm.Req{{Key: wm.NSNameKey, Op: "In", Vals: []string{"ns2"}}}}}} // labels and expressions together: selects nothing
 var Peers = []wm.APeer{{Namespaces: all}, {Namespaces: teamB}, {PodsNS: teamA, PodsPod: appA}, {PodsNS: wm.ME("team", "NotIn", "a"), PodsPod: wm.ME("app", "Exists")},
 	{PodsNS: all, PodsPod: wm.ME("app", "NotIn", "a")}, // negative only: also matches a pod without labels
-	{PodsNS: all, PodsPod: all}}                        // a pods peer with two empty selectors: every pod, and still no IP address
+	{PodsNS: all, PodsPod: all},                        // a pods peer with two empty selectors: every pod, and still no IP address
+	// matchLabels and matchExpressions together: ns1 has the label and fails the expression (selects nothing)
+	{Namespaces: &wm.Sel{ML: map[string]string{"team": "a"}, ME: []wm.Req{{Key: wm.NSNameKey, Op: "NotIn", Vals: []string{"ns1"}}}}},
+	{PodsNS: all, PodsPod: &wm.Sel{ML: map[string]string{"app": "a"}, ME: []wm.Req{{Key: "app", Op: "NotIn", Vals: []string{"a", "c"}}}}}}
 var PortAlpha = []*[]wm.APort{nil,
 	ports(wm.APort{Kind: "num", Proto: "TCP", Num: 80}),
 	ports(wm.APort{Kind: "range", Proto: "TCP", Num: 80, End: 90}),
@@ -39,6 +43,8 @@ var PortAlpha = []*[]wm.APort{nil,
 	// entries without a protocol (default TCP) after entries of another protocol
 	ports(wm.APort{Kind: "num", Proto: "UDP", Num: 53}, wm.APort{Kind: "num", Num: 80}),
 	ports(wm.APort{Kind: "named", Name: "dns"}, wm.APort{Kind: "range", Num: 85, End: 100}),
+	// two separate ports that lie inside the range of another entry of the alphabet (80-90)
+	ports(wm.APort{Kind: "num", Proto: "TCP", Num: 82}, wm.APort{Kind: "num", Proto: "TCP", Num: 88}),
 	// the list written out empty (ports: []): no port restriction, like the omitted field
 	ports(),
 	// a range of exactly one port, next to a wider one on another protocol
@@ -235,7 +241,7 @@ func Scopes(quick bool) []c01.Scope {
 	// S-single: one ANP, two rules (in both orders across the two directions) x subject x NP x BANP
 	stride := 1
 	if quick {
-		stride = 13 // coprime with the size of every dimension of the rule alphabet: rule 2 runs through all port shapes and peers
+		stride = 23 // coprime with the size of every dimension of the rule alphabet: rule 2 runs through all port shapes and peers
 	}
 	add("S-single", fw.Full, func(c *fw.Ctx) *wm.World {
 		s := fw.Pick(c, Subjects, "subject")
@@ -284,7 +290,7 @@ func Scopes(quick bool) []c01.Scope {
 		ra := c.Choose(len(rules), "rule A (ingress)")
 		rbStride := 3
 		if quick {
-			rbStride = 17
+			rbStride = 29
 		}
 		rb := rbStride * c.Choose((len(rules)+rbStride-1)/rbStride, "rule B (egress)")
 		swap := c.Choose(2, "priorities: A<B | B<A")
